@@ -16,7 +16,7 @@
    KernelConfig, every MSS.  `sync c`: both TCBs as they are right after the
    three-way handshake (c06_handshake_sync). *)
 From TV.Lib Require Import Base.
-From TV.NetTcp Require Import Gen Model Facts C16_proofs C06_proofs C06_live.
+From TV.NetTcp Require Import Gen Model Facts C16_proofs C06_proofs C06_live C06_time.
 Open Scope N_scope.
 
 (* SAFETY: what A has read is a prefix of what B's writes accepted and vice
@@ -127,43 +127,37 @@ Proof. exact quiescent_complete_lemma. Qed.
    that update is dropped, the remaining reads free < cap/2 each.  The sender
    keeps snd_wnd = 0 with 12 bytes unsent; no network, timer or reader event
    changes that state any more.  The run is not fair. *)
-Definition kc := mkcfg 1500 65536 64 8 4 3 5.
-Definition tA := mktcb Established nowhere 101 101 8 201 [] [] false false None false false 0 0.
-Definition tB := mktcb Established nowhere 201 201 8 101 [] [] false false None false false 0 0.
-Definition c_sync := mkconn tA tB [] [] [] [] [].
-Definition stall_pre :=
-  [CWrite SA [1;2;3;4;5;6;7;8;9;10;11;12;13;14;15;16;17;18;19;20]; CSegment SA 1460 30; CDeliver 0; CDrop 0;
-   CDeliver 0; CDrop 0; CRead SB 1].
-Definition stall_post := [CRead SB 1; CRead SB 1; CRead SB 1; CRead SB 1; CRead SB 1; CRead SB 1; CRead SB 1].
-Definition stall_script := Eval cbv in stall_pre ++ CDrop 0 :: stall_post.
-
 Theorem c06_window_update_lost_refuted :
   established_start c_sync /\ Forall no_inject stall_script /\ ~ fair_run kc (linit c_sync) stall_script /\
   let c := crun kc c_sync stall_script in
   zero_window_stall c /\ rb c = [1;2;3;4;5;6;7;8] /\ len (wa c) = 20 /\
   (forall es, Forall env_event es -> crun kc c es = c).
-Proof.
-  split; [vm_compute; repeat split; try discriminate; try reflexivity; intros d g []|].
-  split; [repeat constructor|].
-  split.
-  { intros F. change stall_script with (stall_pre ++ CDrop 0 :: stall_post) in F.
-    apply fair_run_app in F. revert F. vm_compute. intros F.
-    assert (exists g, Some (mkg SA 1 true) = Some g /\ g_upd g = true) as X by (eexists; split; reflexivity).
-    destruct (F X) as [H|[H|[]]]; discriminate H. }
-  assert (zero_window_stall (crun kc c_sync stall_script)) as Z.
-  { vm_compute. repeat split; discriminate. }
-  split; [exact Z|]. split; [vm_compute; reflexivity|]. split; [vm_compute; reflexivity|].
-  intros es F. apply stall_forever; assumption.
-Qed.
+Proof. exact window_update_lost_lemma. Qed.
 
-(* PARTIAL (c06_no_spurious_abort): the timed variant — bounded delay and fewer
-   than retx_max losses per segment imply retx_attempts never reaches retx_max —
-   is not proved.  Proved are the three facts it rests on: a TimedOut abort
-   happens only at a tick where the TCB has already been retransmitted
-   retx_max times and `threshold` more passes went by without progress; each
-   retransmission is retx_threshold passes apart and counts once; every ACK
-   that advances snd_una and the completion of the handshake (repaired defect,
-   4b217a9) reset both counters. *)
+(* PARTIAL (c06_no_spurious_abort): "no TimedOut under bounded delay with fewer
+   than retx_max losses per segment".  Proved for every schedule: the exact
+   timing of the abort (c06_timeout_exact below: TimedOut <=> retx_threshold *
+   (retx_max + 1) consecutive timer passes without acknowledgement progress)
+   and the local counter facts stated here (an abort needs retx_max
+   retransmissions, each retx_threshold passes apart and counted once; every
+   ACK that advances snd_una and the completion of the handshake — repaired
+   defect 4b217a9 — reset both counters).  NOT proved: that a round-based
+   environment (every undropped packet delivered within d egress rounds, fewer
+   than retx_max drops per segment, round trip below the budget) yields such
+   an advancing ACK inside every budget window.  The missing cases are exactly:
+   (M1) the retransmitted first segment must be accepted (or already covered)
+        by the receiver, i.e. the receiver has room when it arrives; this fails
+        when a reordered, older ACK re-opened the sender's window beyond the
+        receiver's right edge (tcb_ack takes the window of ANY ack segment, no
+        SND.WL1/WL2 test) while the reader is idle — then every retransmission
+        is re-ACKed without progress and the sender is aborted although nothing
+        was lost; excluding it needs FIFO delivery per direction or a reading
+        application, plus the right-edge invariant over the wire;
+   (M2) the ACK must arrive while ackn <= snd_nxt: after a go-back-N rewind
+        snd_nxt = snd_una until the next segmentation pass; in the kernel
+        check_retx and segment_all are one egress, in the connection-level
+        system they are two events and a delivery may fall between them;
+   (M3) the counting of emission rounds, delays and drops per segment. *)
 Theorem c06_no_spurious_abort_partial : forall th mx t,
   (snd (tcb_retx_tick th mx t) = RAbort -> retx_candidate t = true /\ th <= esa t + 1 /\ mx <= retx t) /\
   (snd (tcb_retx_tick th mx t) = RRewind \/ snd (tcb_retx_tick th mx t) = RResend ->
@@ -173,11 +167,31 @@ Theorem c06_no_spurious_abort_partial : forall th mx t,
      esa (tcb_ack t s) = 0 /\ retx (tcb_ack t s) = 0 /\ snd_una (tcb_ack t s) = ackn s) /\
   (forall cap s, handshake_state (t_state t) = true -> snd (tcb_on_conn cap t s) <> ONone ->
      esa (fst (tcb_on_conn cap t s)) = 0 /\ retx (fst (tcb_on_conn cap t s)) = 0).
-Proof.
-  intros th mx t. split; [apply abort_only_in_retx_budget|]. split; [apply (proj1 (retx_tick_counts th mx t))|].
-  split; [intros s; apply ack_progress_resets|].
-  intros cap s HS NO. destruct (handshake_resets cap t s _ HS eq_refl NO) as (A & B & _). split; assumption.
-Qed.
+Proof. exact counters_local_lemma. Qed.
+
+(* TIMING of the abort, for EVERY schedule (loss, duplication, reordering,
+   injected segments, any application behaviour), handshake and data alike.
+   `stale k s c p` is the ghost count, along the run p from c, of the
+   retransmission-timer passes of side s that found it with unacknowledged data
+   (or an unanswered SYN / SYN-ACK) since its last progress; progress = an
+   acknowledgement advanced snd_una, or the handshake completed.
+   (1) side s is not TimedOut as long as the count has stayed below
+       retx_threshold * (retx_max + 1);
+   (2) the count is exactly retx_attempts * retx_threshold + egress_since_ack;
+   (3) the timer pass that completes the budget does abort.
+   So TimedOut means exactly: retx_threshold * (retx_max + 1) consecutive
+   timer passes without acknowledgement progress — never earlier, never later. *)
+Theorem c06_timeout_exact : forall k c s,
+  1 <= retx_threshold k ->
+  (forall es, timed_out (tcb_of c s) = false -> esa (tcb_of c s) = 0 -> retx (tcb_of c s) = 0 ->
+     (forall p q, es = p ++ q -> stale k s c p < retx_threshold k * (retx_max k + 1)) ->
+     let t := tcb_of (crun k c es) s in
+     timed_out t = false /\
+     stale k s c es = esa t + retx t * retx_threshold k /\ esa t < retx_threshold k /\ retx t <= retx_max k) /\
+  (forall n, TP (retx_threshold k) (retx_max k) (tcb_of c s) n -> retx_candidate (tcb_of c s) = true ->
+     n + 1 = retx_threshold k * (retx_max k + 1) -> timed_out (tcb_of (cstep k c (CRetx s)) s) = true).
+Proof. exact timeout_exact_lemma. Qed.
+
 
 (* Link to the kernel model that is checked against the implementation: an
    inbound non-RST segment for a connection changes that socket's TCB exactly
@@ -200,10 +214,15 @@ Definition demo :=
    CRetx SA; CSegment SA 2 30;                         (* go-back-N *)
    CDeliver 4; CDeliver 4; CRead SB 1].                (* retransmitted [1;2] arrives, twice *)
 Definition demo2 := demo ++ [CDeliver 5; CDeliver 6; CRead SB 10; CShutdown SA; CSegment SA 2 30; CDeliver 11; CRead SB 1].
+(* timing: retx_threshold 1, retx_max 5: the 6th stale timer pass aborts, the 5th does not *)
+Definition again := [CRetx SA; CSegment SA 2 30; CDrop 0].                (* retransmitted and lost again *)
+Definition lost5 := [CWrite SA [1;2]; CSegment SA 2 30; CDrop 0] ++ again ++ again ++ again ++ again ++ again.
 Example c06_nonvacuous :
   sync c_sync /\
   rb (crun kc2 c_sync demo) = [1] /\ wa (crun kc2 c_sync demo) = [1;2;3;4;5;6] /\
-  rb (crun kc2 c_sync demo2) = [1;2;3;4;5;6] /\ peer_fin (tb (crun kc2 c_sync demo2)) = true.
+  rb (crun kc2 c_sync demo2) = [1;2;3;4;5;6] /\ peer_fin (tb (crun kc2 c_sync demo2)) = true /\
+  stale kc2 SA c_sync lost5 = 5 /\ timed_out (ta (crun kc2 c_sync lost5)) = false /\
+  timed_out (ta (crun kc2 c_sync (lost5 ++ [CRetx SA]))) = true.
 Proof.
   split; [vm_compute; repeat split; try discriminate; intros d g []|]. vm_compute. repeat split.
 Qed.
@@ -221,5 +240,6 @@ Print Assumptions c06_sender_progress.
 Print Assumptions c06_quiescent_complete.
 Print Assumptions c06_window_update_lost_refuted.
 Print Assumptions c06_no_spurious_abort_partial.
+Print Assumptions c06_timeout_exact.
 Print Assumptions c06_kernel_uses_tcb_on_conn.
 Print Assumptions c06_nonvacuous.
